@@ -28,7 +28,9 @@ func QCKinds() []string { return append([]string(nil), qcKinds...) }
 
 var errMsgs = []string{"boom", "", "no such key", "déjà vu ☃", "line1\nline2", "node 7: fake", "a very long message that goes on and on and on and on and on and on and on and on",
 	// texts that only survive if nobody uses them as a format string
-	"disk 100% full", "quota at 95%, refusing", "%s %d %v %!s(MISSING) %%", "ends with %"}
+	"disk 100% full", "quota at 95%, refusing", "%s %d %v %!s(MISSING) %%", "ends with %",
+	// long enough for the reply's metadata to need a two-byte length prefix
+	"the request could not be applied because the replica is still catching up with the log of its peers; retry after the next view change has been installed (entry 18446744073709551615)"}
 
 // GenMgr draws manager options that do not change the semantics under test.
 func GenMgr(t *rapid.T, allowBlock bool) scen.MgrOpts {
